@@ -29,6 +29,11 @@
 #include <sys/wait.h>
 #include <unistd.h>
 
+#if defined (__SANITIZE_ADDRESS__)
+# include <sanitizer/lsan_interface.h>
+# define ZWDRV_LSAN 1
+#endif
+
 #include "libzwerg.h"
 #include "libzwerg-dw.h"
 #include "libzwergP.hh"
@@ -967,6 +972,12 @@ main (int argc, char **argv)
 	      alarm (k.timeout);
 	      std::string r = do_case (k);
 	      alarm (0);
+#ifdef ZWDRV_LSAN
+	      // everything the case allocated has been released by now: what is still
+	      // unreachable is a leak of this case
+	      if (__lsan_do_recoverable_leak_check () != 0 && r.size () > 1 && r[r.size () - 1] == '}')
+		r = r.substr (0, r.size () - 1) + ",\"leak\":true}";
+#endif
 	      fprintf (out, "R %zu %s\n", i, r.c_str ());
 	      fflush (out);
 	    }
